@@ -6,6 +6,7 @@ cd /verif/harness
 export CARGO_NET_OFFLINE=true
 unset RUSTFLAGS
 cargo build --release --offline -p tamon -p sanlane
+cargo build --profile plain --offline -p tamon
 cargo build --release --offline -p ta --target-dir target-surface
 cargo build --release --offline -p surface --bin probe --target-dir target-surface
 cargo build --release --offline -p surface --bin probe --features serde --target-dir target-surface
